@@ -70,8 +70,8 @@ PROPS["C04"] = {
              "link created earlier by the same archive must make Unpack fail and nothing may appear at the link's target. Non-trivial = allow-list case, sibling-prefix target, a link target traversing another link's name, "
              "or the one-offending-link class; distinct by case hash."),
     "assumptions": ["dst has no pre-existing symlinks", "absolute targets that point into dst are not required to be rejected (existing tested behaviour)"],
-    "quick": [rapid("links", "^TestPropLinks$", 2000, shards=3), rapid("reject", "^TestPropReject$", 2500, shards=1), rapid("through", "^TestPropThrough$", 400, shards=1), rapid("reuse", "^TestPropReuse$", 300, shards=1)],
-    "thorough": [rapid("links", "^TestPropLinks$", 30000, shards=11), rapid("reject", "^TestPropReject$", 30000, shards=2), rapid("through", "^TestPropThrough$", 5000, shards=1), rapid("reuse", "^TestPropReuse$", 3000, shards=1)],
+    "quick": [rapid("links", "^TestPropLinks$", 2000, shards=3), rapid("reject", "^TestPropReject$", 2500, shards=1), rapid("through", "^TestPropThrough$", 400, shards=1), rapid("reuse", "^TestPropReuse$", 300, shards=1), rapid("via", "^TestPropVia$", 500, shards=1)],
+    "thorough": [rapid("links", "^TestPropLinks$", 30000, shards=11), rapid("reject", "^TestPropReject$", 30000, shards=2), rapid("through", "^TestPropThrough$", 5000, shards=1), rapid("reuse", "^TestPropReuse$", 3000, shards=1), rapid("via", "^TestPropVia$", 5000, shards=1)],
 }
 
 PROPS["C02"] = {
